@@ -656,9 +656,10 @@ theorem quiet_within : Prims.quiet.Within Gen.C06.recorded := by
     · injection h with h; subst h; decide
   · intro e n c h; cases h
   · intro n c h
-    split at h
-    · cases h
-    · injection h with h; subst h; decide
+    cases hx : cp1252 n with
+    | ok s => rw [hx] at h; cases h
+    | decodeError => rw [hx] at h; injection h with h; subst h; decide
+    | otherError => rw [hx] at h; injection h with h; subst h; decide
   · intro n c h
     split at h
     · cases h
@@ -744,6 +745,77 @@ theorem convert_clause_must_be_broad :
     predict { Code.live with convertFrom := [.unicodeError, .lookupError] } .decode .valueError = .escapes .valueError := by
   decide
 
+/-! ### the earlier models are instances of the envelope model -/
+
+/-- the repaired `handle_charref` of `Construct.lean` is the envelope model at CPython's concrete `int`/`chr`/codecs -/
+theorem charref_envelope_live {V : Type} (P : Prims V) (f : Nat → Nat → Dec1) (hP : P.CharrefConcrete f)
+    (orig : Option Nat) (name : PStr) :
+    handleCharrefE Code.live P orig name = handleCharref (orig.map f) name := by
+  unfold handleCharrefE handleCharref
+  rw [charrefNumberE_concrete P f hP]
+  have key := fun n => handleCharrefE_core P f hP Code.live true rfl rfl orig n
+  cases hn : charrefNumber name with
+  | error e =>
+    have := charrefNumber_error name e hn
+    subst this
+    have h1 : absorb Code.live.charrefInt (Gen.C06.maxUnicode + 1) (Except.error Err.valueError : Except Err Nat)
+        = .ok (Gen.C06.maxUnicode + 1) := by decide
+    rw [h1]
+    dsimp only
+    exact key _
+  | ok n =>
+    have h1 : absorb Code.live.charrefInt (Gen.C06.maxUnicode + 1) (Except.ok n : Except Err Nat) = .ok n := rfl
+    rw [h1]
+    dsimp only
+    exact key n
+
+/-- … and the 4.13.0 one at the 4.13.0 clauses -/
+theorem charref_envelope_v4130 {V : Type} (P : Prims V) (f : Nat → Nat → Dec1) (hP : P.CharrefConcrete f)
+    (orig : Option Nat) (name : PStr) :
+    handleCharrefE Code.v4130 P orig name = handleCharrefOld (orig.map f) name := by
+  unfold handleCharrefE handleCharrefOld
+  rw [charrefNumberE_concrete P f hP]
+  have key := fun n => handleCharrefE_core P f hP Code.v4130 false rfl rfl orig n
+  cases hn : charrefNumber name with
+  | error e =>
+    have h1 : absorb Code.v4130.charrefInt (Gen.C06.maxUnicode + 1) (Except.error e : Except Err Nat) = .error e := rfl
+    rw [h1]
+  | ok n =>
+    have h1 : absorb Code.v4130.charrefInt (Gen.C06.maxUnicode + 1) (Except.ok n : Except Err Nat) = .ok n := rfl
+    rw [h1]
+    dsimp only
+    exact key n
+
+/-- so every fact about the concrete conversion holds of the envelope model at CPython's behaviour, e.g. `charref_spec`:
+    for `str` input the reference stands for `charrefSpec` of its number -/
+theorem charref_envelope_spec {V : Type} (P : Prims V) (f : Nat → Nat → Dec1) (hP : P.CharrefConcrete f) (name : PStr)
+    (n : Nat) (h : charrefNumber name = .ok n) : handleCharrefE Code.live P none name = .ok (charrefSpec n) := by
+  rw [charref_envelope_live P f hP none name]
+  exact charref_spec name n h
+
+example : Prims.quiet.CharrefConcrete (fun _ n => .ok [n]) := ⟨rfl, rfl, fun _ _ => rfl, fun _ => rfl, fun _ => rfl⟩
+example : handleCharrefE Code.live Prims.quiet none (BS.ofS "150") = .ok [0x2013] := by decide
+
+/-- When nothing on the UnicodeDammit path raises beyond what `_codec`'s and `_convert_from`'s clauses absorb, the
+    exception-aware model computes exactly `dammit` of `Construct.lean` on the absorbed view of the primitives … -/
+theorem dammit_envelope_refines {V : Type} (code : Code) (P : Prims V) (encs : List Nat)
+    (hq : Prims.DammitQuiet code P encs) : dammitE code P = .ok (dammit (Prims.env code P) encs) :=
+  dammitE_eq code P encs hq
+
+/-- … hence `dammit_some_of_fallback` carries over: UnicodeDammit ends with text as soon as one candidate other than
+    the literal `ascii` decodes with `errors="replace"`, whatever the other candidates' codecs raise -/
+theorem dammitE_some_of_fallback {V : Type} (code : Code) (P : Prims V) (encs : List Nat)
+    (hq : Prims.DammitQuiet code P encs)
+    (h : ∃ e ∈ encs, P.isAscii e = false ∧ ∃ c t, findCodecE code P e = .ok (some c) ∧ P.decode c true = .ok t) :
+    ∃ d, dammitE code P = .ok d ∧ d.unicodeMarkup.isSome = true := by
+  refine ⟨_, dammitE_eq code P encs hq, ?_⟩
+  apply dammit_some_of_fallback
+  obtain ⟨e, he, ha, c, t, hf, hd⟩ := h
+  exact ⟨e, he, ha, c, t, by simp [Prims.env, hf], by simp [Prims.env, hd]⟩
+
+example : Prims.DammitQuiet Code.live Prims.quiet [1, 2] :=
+  ⟨rfl, fun e => ⟨some e, rfl⟩, fun _ _ _ h => by simp [Prims.quiet] at h, rfl⟩
+
 /-! ### the object when the constructor returns -/
 
 /-- Whenever the constructor's loop returns normally, for ANY list of strategies: the list splits into rejected
@@ -784,6 +856,35 @@ theorem retry_ok_state {V : Type} (m : Machine V) (R H : List Field) (wf : m.WF 
         rw [← hs, h] at this; cases this
   obtain ⟨pre, s, post, hs, hpre, hacc⟩ := key ss [] rfl (by simp)
   exact ⟨pre, s, post, hs, hpre, hacc, by rw [hs]; exact retry_first_accept m R H wf o0 pre s post hpre hacc⟩
+
+/-- **The object the constructor returns, on every call path.** In the envelope model (every primitive free to raise),
+    whenever the constructor returns normally the object is exactly `finish` of one complete, accepted, clean attempt of
+    a strategy `prepare_markup` yielded, run from the initial object; every strategy before it was rejected. The only
+    assumptions are frames: the callbacks write only fields that `reset()`/the loop header re-assign
+    (`feed_touches_reassigned` for the live code). -/
+theorem constructE_ok_state {V : Type} (code : Code) (P : Prims V) (F : Frame V) (R H : List Field) (hF : F.WF R H)
+    (hf : P.Frames (R ++ H)) (o0 : Obj V) (mk : Markup) (h : (constructE code P F o0 mk).2 = .ok ()) :
+    ∃ ss pre s post, prepareMarkupE code P mk = .ok ss ∧ ss = pre ++ s :: post ∧
+      (∀ r ∈ pre, (attempt (machineE code P F) o0 r).2 = .reject) ∧
+      (attempt (machineE code P F) o0 s).2 = .accept ∧
+      (constructE code P F o0 mk).1 = assignAll F.finish (attempt (machineE code P F) o0 s).1 := by
+  unfold constructE construct at h ⊢
+  cases hh : heuristicsE code P mk with
+  | error e => simp [hh] at h
+  | ok w =>
+    simp only [hh] at h ⊢
+    cases hp : prepareMarkupE code P mk with
+    | error e => simp [hp] at h
+    | ok ss =>
+      simp only [hp] at h ⊢
+      obtain ⟨pre, s, post, hs, hpre, hacc, hret⟩ :=
+        retry_ok_state (machineE code P F) R H (machineE_wf code P F R H hF hf) o0 ss h
+      exact ⟨ss, pre, s, post, rfl, hs, hpre, hacc, by rw [hret]; rfl⟩
+
+/-- non-vacuity: the quiet behaviour over `Unit` satisfies the frames and returns normally -/
+example : Prims.quiet.Frames [] :=
+  ⟨fun _ _ => AgreeOff.refl _ _, fun _ _ => AgreeOff.refl _ _, fun _ => AgreeOff.refl _ _⟩
+example : Frame.unit.WF [] [] := ⟨fun _ => rfl, fun _ => rfl, fun _ _ _ => rfl⟩
 
 example : ∃ pre s post, [({ markup := [] } : Strategy), { markup := [1, 2] }] = pre ++ s :: post ∧
     (attempt demo (fun _ => 99) s).2 = .accept := ⟨[{ markup := [] }], { markup := [1, 2] }, [], rfl, by decide⟩
